@@ -76,7 +76,7 @@ def run(ctx):
     extra = translated_tie(ctx)
     depslib.run_engine_check(ctx, ctx.pid, 400 if ctx.quick else 6000, extra_programs=extra)
     from checks.c01 import contention
-    contention(ctx, parts=("ctxerr", "wide"), rounds=200)      # a dependency failing with the context's own error fails its dependents like any other failure
+    contention(ctx, parts=("ctxerr", "wide", "api"), rounds=200)      # a dependency failing with the context's own error fails its dependents like any other failure
     if ctx.pending_tie and not ctx.violations:
         # the proof obligation broke but neither the oracle nor trace acceptance found a failing run
         ctx.violation(ctx.pending_tie, found_input=False)
